@@ -17,7 +17,7 @@ def run(ctx):
     triples = charfam.flag_triples(rng, 900 if quick else 0, exhaustive=not quick)
     scen = []
     for (a, r, x) in triples:
-        variants = [rng.randrange(7)] if quick else [0, rng.randrange(1, 7)]
+        variants = [rng.randrange(9)] if quick else [0, rng.randrange(1, 9)]
         for v in variants:
             L = rng.choice([1, 2, 8, 40, 96, 128])
             scen.append(charfam.flag_scen(a, r, x, v, L, 4 if quick else 6, "flag-paths"))
